@@ -34,7 +34,8 @@ type c17Case struct {
 	EOFWith  bool     `json:"eof_with_data"`
 	Cuts     []int    `json:"cuts"`
 	MaxRead  int      `json:"max_read,omitempty"`
-	Truncate int      `json:"truncate_at"` // -1 = none; else the stream is cut to this many bytes
+	Truncate int      `json:"truncate_at"`             // -1 = none; else the stream is cut to this many bytes
+	KeepCap  bool     `json:"keep_capacity,omitempty"` // the caller goes on with dst[n:] itself (spare capacity kept) instead of a copy
 }
 
 func c17Codec(name string) larking.StreamCodec {
@@ -205,7 +206,11 @@ func c17Exec(tc *c17Case, msgs [][]byte, stream []byte, states map[[3]int]struct
 				}
 				off += len(frame)
 				idx++
-				buf = append(buf[:0:0], dst[n:]...)
+				if tc.KeepCap {
+					buf = dst[n:]
+				} else {
+					buf = append(buf[:0:0], dst[n:]...)
+				}
 				continue
 			}
 			// Truncated inside message idx (or exactly at its start when off==len(stream)).
@@ -276,7 +281,26 @@ func c17Sequences(thorough bool) []c17Seq {
 		}
 	}
 	rec(nil, 0)
-	for _, big := range [][]int{{127}, {128}, {300}, {127, 128}, {128, 0, 300}, {300, 300}, {16384}} {
+	bigs := [][]int{{127}, {128}, {300}, {127, 128}, {128, 0, 300}, {300, 300}, {16384}}
+	// sizes around the capacity-growth thresholds (doubling below 1024, by a quarter above), the
+	// 2- and 3-byte length prefixes and 64 KiB; thorough: the 4-byte prefix as well
+	for _, s := range []int{1023, 1024, 1025, 2047, 2048, 2049, 4095, 4096, 4097, 16383, 16385, 65535, 65536, 65537} {
+		bigs = append(bigs, []int{s}, []int{3, s, 1})
+	}
+	if thorough {
+		for _, s := range []int{2097151, 2097152, 2097153} {
+			bigs = append(bigs, []int{s})
+		}
+	}
+	// growth of a reused buffer: a message 1.25..2 times the capacity the previous ones left
+	bigs = append(bigs, []int{1500}, []int{1500, 1500, 1500}, []int{3, 1300, 1}, []int{1000, 1500, 2300, 3500, 5300}, []int{5300, 1100, 2000, 1030})
+	// long streams: 300 messages of cycling sizes (counters, accumulated carry-over)
+	var long []int
+	for i := 0; i < 300; i++ {
+		long = append(long, []int{0, 1, 2, 5, 127, 128, 64, 63}[i%8])
+	}
+	bigs = append(bigs, long)
+	for _, big := range bigs {
 		var msgs [][]byte
 		for i, s := range big {
 			msgs = append(msgs, c17Msg(s, byte(0x80+i)))
@@ -303,12 +327,25 @@ func c17Sequences(thorough bool) []c17Seq {
 		}
 	}
 	recj(nil, 0)
+	// json at scale: nesting depth 300, a long string full of braces / quotes / backslashes, messages
+	// of 1 KiB .. 64 KiB, and a stream of 300 messages
+	deep := strings.Repeat(`{"a":`, 300) + `{}` + strings.Repeat(`}`, 300)
+	longStr := `{"s":"` + strings.Repeat(`}{\\\"x`, 700) + `"}`
+	out = append(out, c17Seq{"json", [][]byte{[]byte(deep)}}, c17Seq{"json", [][]byte{[]byte(longStr)}}, c17Seq{"json", [][]byte{[]byte(`{}`), []byte(deep), []byte(longStr), []byte(`{"a":1}`)}})
+	for _, n := range []int{1023, 1024, 1025, 4096, 65536} {
+		out = append(out, c17Seq{"json", [][]byte{[]byte(`{"s":"` + strings.Repeat("y", n-8) + `"}`)}})
+	}
+	var many [][]byte
+	for i := 0; i < 300; i++ {
+		many = append(many, []byte(c17JSON[i%len(c17JSON)]))
+	}
+	out = append(out, c17Seq{"json", many})
 	return out
 }
 
 func runC17(c *Ctx) {
 	r := c.Run
-	r.Rule("codec{proto,json,body} × message sequence (0..3 msgs) × limit{max-1,max,max+1,big} × initial carry split × buf cap{exact,64} × EOF convention{separate,with data} × read partition (all 2^(n-1) for short streams; ≤2 cuts + uniform chunk sizes beyond) × truncation offset; plus every 1..10-byte length prefix over {80,81,ff}*{00,01,02,7f}; plus the write side: WriteNext framing of every sequence, no write into the caller's memory (batch of messages in one buffer), and ReadNext→WriteNext relays with carried look-ahead (5 read granularities × 4 buffer capacities); distinct = (codec,sequence,limit) classes")
+	r.Rule("codec{proto,json,body} × message sequence (0..3 msgs of 0..5 bytes; sizes around 127/128, 1024, 2048, 4096, 16384, 65536 (thorough: 2 MiB) alone and between small messages; a 300-message stream; JSON nested 300 deep, a 5 kB string of braces/quotes/backslashes, 1 KiB..64 KiB strings) × limit{max-1,max,max+1,big} × initial carry split × buf cap{exact,64; 1024,4096 for streams over 1 kB} × carry-over convention{copy of dst[n:], dst[n:] itself with its spare capacity} × EOF convention{separate,with data} × read partition (all 2^(n-1) for short streams; ≤2 cuts + uniform chunk sizes beyond) × truncation offset; plus every 1..10-byte length prefix over {80,81,ff}*{00,01,02,7f}; plus the write side: WriteNext framing of every sequence, no write into the caller's memory (batch of messages in one buffer), and ReadNext→WriteNext relays with carried look-ahead (5 read granularities × 4 buffer capacities); distinct = (codec,sequence,limit) classes")
 	r.Assume("limit <= 0 is not exercised (semantics undocumented)", "the scripted reader follows the io.Reader contract (may return n>0 together with io.EOF)")
 	fullMax := 10
 	if c.Thorough() {
@@ -351,13 +388,21 @@ func runC17(c *Ctx) {
 	explore.ParallelFor(len(jobs), r.TooManyViolations, func(_ int, ji int) {
 		j := jobs[ji]
 		var stream []byte
-		var hexMsgs []string
+		var hexMsgs, fullHex []string
 		for _, m := range j.seq.msgs {
 			stream = append(stream, c17Frame(j.seq.codec, m)...)
-			hexMsgs = append(hexMsgs, hexs(m))
+			fullHex = append(fullHex, hexs(m))
+			if len(m) > 512 {
+				hexMsgs = append(hexMsgs, fmt.Sprintf("%s..(%d bytes)", hexs(m[:8]), len(m)))
+			} else {
+				hexMsgs = append(hexMsgs, hexs(m))
+			}
 		}
 		if j.seq.codec == "body" {
-			hexMsgs = nil
+			hexMsgs, fullHex = nil, nil
+		}
+		if len(hexMsgs) > 8 {
+			hexMsgs = append(hexMsgs[:8:8], fmt.Sprintf("..(%d messages)", len(j.seq.msgs)))
 		}
 		n := len(stream)
 		local := map[[3]int]struct{}{}
@@ -390,7 +435,7 @@ func runC17(c *Ctx) {
 				outc["ok"]++
 			}
 		}
-		tc := &c17Case{Codec: j.seq.codec, Msgs: hexMsgs, Stream: hexs(stream), Limit: j.limit, Truncate: -1}
+		tc := &c17Case{Codec: j.seq.codec, Msgs: fullHex, Stream: hexs(stream), Limit: j.limit, Truncate: -1}
 		carries := []int{0}
 		for k := 1; k <= n; k++ {
 			if n > 64 && k > 2 && k < n-2 && k%61 != 0 {
@@ -399,10 +444,22 @@ func runC17(c *Ctx) {
 			if n > 1024 && k > 2 && k < n-2 && k%4099 != 0 {
 				continue
 			}
+			if n > 100000 && k > 1 && k < n {
+				continue
+			}
 			carries = append(carries, k)
 		}
-		for _, eofWith := range []bool{false, true} {
-			for _, capb := range []int{0, 64} {
+		caps := []int{0, 64}
+		if n > 1000 {
+			caps = []int{0, 64, 1024, 4096} // a pooled buffer that earlier, larger messages left behind
+		}
+		for _, ec := range []int{0, 1, 2, 3} {
+			eofWith := ec&1 == 1
+			tc.KeepCap = ec&2 == 2
+			if tc.KeepCap && j.seq.codec == "body" {
+				continue
+			}
+			for _, capb := range caps {
 				for _, carry := range carries {
 					tc.EOFWith, tc.Cap, tc.Carry, tc.MaxRead = eofWith, capb, carry, 0
 					if n <= fullMax {
@@ -412,7 +469,11 @@ func runC17(c *Ctx) {
 							env.SmallCutSets(n, 1, func(cuts []int) { tc.Cuts = cuts; run(tc) })
 						}
 						tc.Cuts = nil
-						for _, mr := range []int{1, 2, 3, 5, 63, 64, 65, 127, 128, 129} {
+						mrs := []int{1, 2, 3, 5, 63, 64, 65, 127, 128, 129, 1024, 4096, 0}
+						if n > 100000 {
+							mrs = []int{4093, 65536, 0} // megabyte messages: coarse reads only
+						}
+						for _, mr := range mrs {
 							tc.MaxRead = mr
 							run(tc)
 						}
@@ -435,7 +496,7 @@ func runC17(c *Ctx) {
 		r.Eval(execs)
 		r.AddTransitions(calls)
 		r.Distinct(classKey)
-		if r.WantSample() && ji%37 == 5 {
+		if r.WantSample() && ji%37 == 5 && len(stream) <= 2048 {
 			r.Sample(map[string]any{"codec": j.seq.codec, "msgs_hex": hexMsgs, "stream_hex": hexs(stream), "limit": j.limit, "schedules": execs})
 		}
 		mu.Lock()
